@@ -270,6 +270,29 @@ def run(prog, rep, tier):
                         seq.append([k, '+'.join(fl)])
                 rep.ob('R06.3', seq == want, 'R06.3|%s|arm|%s' % (dump.nkey, v), '%s written as %s' % (v, seq) if seq == want else
                        'writer emits %s as %s, the published layout is %s' % (v, seq, want), dump.loc(tgt))
+                # a length prefix is the byte length of what follows it: the u64 written right before a byte string of field F is `len()` of (the bytes of) F
+                oo = ordered_ops(dump, blocks)
+                for (bb1, k1), (bb2, k2) in zip(oo, oo[1:]):
+                    if k1 != 'u64le' or k2 != 'bytes':
+                        continue
+                    t1, t2 = dump.blocks[bb1].term, dump.blocks[bb2].term
+                    if len(t1.args) < 2 or t1.args[1].place is None or len(t2.args) < 2 or t2.args[1].place is None:
+                        continue
+                    bo = origins(dump, [t2.args[1].place[0]])
+                    bfields = {f[-1] for f in bo.fields if f[0] == 'self'}
+                    uo = origins(dump, [t1.args[1].place[0]])
+                    if not ({f[-1] for f in uo.fields if f[0] == 'self'} & bfields):
+                        continue      # a u64 of another field (an id before a hash), not a length prefix
+
+                    def is_len(kk, ob, b3, bfields=bfields):
+                        if kk != 'call' or ob.cmethod != 'len' or not ob.args or ob.args[0].place is None:
+                            return False
+                        lo_ = origins(dump, [ob.args[0].place[0]])
+                        return bool({f[-1] for f in lo_.fields if f[0] == 'self'} & bfields) and not any(dump.blocks[c].term.cmethod in ('chars', 'char_indices', 'encode_utf16', 'graphemes', 'split', 'trim') for c in lo_.calls)
+                    okl = must_derive(dump, t1.args[1].place[0], is_len)
+                    rep.ob('R06.3', okl, 'R06.3|%s|arm|%s|length-prefix-is-byte-length' % (dump.nkey, v), 'the length written before the bytes of %s is their len()' % '+'.join(sorted(bfields)) if okl else
+                           'the u64 written before the bytes of %s is not the byte length of what follows (e.g. a character count): the next block no longer starts where the '
+                           'length says' % '+'.join(sorted(bfields)), dump.loc(bb1))
     frm = one_body(prog, rep, 'R06.3', 'mla', exact='ArchiveFileBlock::from')
     if frm is not None:
         frm = inlined_body(prog, frm)
